@@ -102,7 +102,7 @@ def required_cells(tier):
            "consumer:gradient": 4, "consumer:pttebd": 4,
            "control": 4, "system:td": 4,
            "coupling:diagonal": 2, "coupling:nondiagonal": 2,
-           "filebacked:named": 2, "filebacked:temp": 2,
+           "filebacked:named": 2, "filebacked:temp": 2, "filebacked:temp-scan": 2,
            "filebacked:class": 1, "unique": 1,
            "filebacked:relabelled-while-open": 1,
            "overwrite:export-refused": 2, "overwrite:export-replaced": 2,
@@ -1200,6 +1200,38 @@ def run_pttempo(case):
             if idx % 4 == 2:
                 ctx.cells.append("filebacked:class")
             objs.append(("file-backed PT-TEMPO (temporary file)", tpt, True))
+
+        # --- a scan: temporary-file results of several short computations,
+        #     each closed as soon as it is done, all opened again afterwards
+        if idx % 4 == 0:
+            held = []
+            with private_tmp(scr.dir):
+                for q_ in range(3):
+                    tq, _ = compute(
+                        end_time=lib.end_time(start, dt, 2 + q_),
+                        process_tensor_file=True)
+                    held.append((tq.filename, observe(tq)))
+                    tq.close()
+            if len({h[0] for h in held}) != len(held):
+                ctx.violate("temp-file-shared", "temporary-file process "
+                            "tensors of separate computations live in the "
+                            f"same file: {[os.path.basename(h[0]) for h in held]}")
+            for q_, (tname_, tsnap_) in enumerate(held):
+                try:
+                    q = scr.track(oqupy.import_process_tensor(tname_,
+                                                              "simple"))
+                except Exception as exc:   # pylint: disable=broad-except
+                    ctx.violate("temp-file-shared", "temporary-file process "
+                                f"tensor {q_} of a scan cannot be opened "
+                                f"again: {type(exc).__name__}: {exc}")
+                    continue
+                compare(ctx, tsnap_, observe(q),
+                        f"temporary-file PT-TEMPO {q_} of a scan, opened "
+                        "again after the scan")
+            for tname_, _ in held:
+                if os.path.exists(tname_):
+                    os.remove(tname_)
+            ctx.cells.append("filebacked:temp-scan")
 
         consumers, free = make_consumers(
             rng, d, nsteps, snap["dt"], select_consumers(idx), idx)
